@@ -163,3 +163,27 @@ func specCountInStore(parts []metadatastore.Part, n int, name *string) int {
 	}
 	return specCountInStore(parts, n-1, name)
 }
+
+// specRangeStart / specRangeEnd: the half-open byte span [start, end) a range denotes within an object of that size
+// (the storage layer's ByteRange.End is exclusive; an absent bound is the object's bound).
+func specRangeStart(r storage.ByteRange) int64 {
+	if r.Start != nil {
+		return *r.Start
+	}
+	return 0
+}
+
+func specRangeEnd(r storage.ByteRange, objectSize int64) int64 {
+	if r.End != nil {
+		return *r.End
+	}
+	return objectSize
+}
+
+// specPrefixSize is the offset of part i within the object: the sizes of the parts before it.
+func specPrefixSize(parts []metadatastore.Part, i int) int64 {
+	if i <= 0 {
+		return 0
+	}
+	return specPrefixSize(parts, i-1) + parts[i-1].Size
+}
